@@ -180,6 +180,11 @@ def run(tier, replay=None):
                   f'L{wch}: j L{wch}\n', f'# {wch}\nmain:\n    lw a0, {wch}(sp)\n',
                   f'{wch * 4}nop\n', f'{wch * 4}li t0, 1\n', f'main:\n{wch * 3}\taddi t0, t0\n'):
             cli_inputs.append(("wide-line", {"main.s": t}))
+    # the extreme boundary pairs of Gen_Overflow through the modes that print values and stack slots (Display / Serialize of the facts)
+    ext = {0, -1, 1, 2147483647, -2147483648, -2147483647}
+    for c in ores[0]:
+        if c["x"] in ext and c["y"] in ext:
+            cli_inputs.append(("overflow", {"main.s": c["text"]}))
     # the long runs again through the binary (its own stack size and frame sizes)
     if not replay:
         for cls, kw in reps:
@@ -198,6 +203,8 @@ def run(tier, replay=None):
                 open(os.path.join(d, n), "w", newline="", encoding="utf-8").write(t)
             for bname, b in bins:
                 ms = modes if cls not in ("string", "string-wide", "wide-line", "repeat") else (modes[:4] if cls == "string" else [[], ["--no-color"]])
+                if cls == "overflow":
+                    ms = [["--debug", "--no-output"], ["--yaml", "--no-output"], ["--json"]]
                 for m in ms:
                     jobs.append((cls, files, bname, b, m, os.path.join(d, "main.s")))
 
@@ -246,5 +253,5 @@ def run(tier, replay=None):
         "evaluations": len(evs), "distinct_nontrivial": len({json.dumps(kw, sort_keys=True) for _, kw in cases}),
         "classes": dict(classes), "cli_runs": ncli, "growth_nodes_vs_max_sweeps": {k: sorted(v) for k, v in growth.items()},
         "exhaustive": False,
-        "rule": "long runs of every alphabet symbol, of statement lines and of symbol pairs (harness and rva binary); text with multi-byte characters before a reported position through the pretty printer; all strings over a 28-symbol lexer alphabet up to length 3 (quick) / 4 (thorough) [exhaustive, Gen_Strings]; Gen_Overflow boundary-grid programs (28 shapes); all include graphs over three files incl. self loops, cycles, missing files [Gen_IncGraph, exhaustive in thorough], also with a reader that never reports cycles; Gen_Values/Gen_Flow simulations; every layout order of a 2..3 (thorough: 4) block cycle [Gen_Blocks, exhaustive]; token/line mutations and truncations of corpus programs; scaled programs for the sweep bound; rva in 10 output modes",
+        "rule": "long runs of every alphabet symbol, of statement lines and of symbol pairs (harness and rva binary); text with multi-byte characters before a reported position through the pretty printer; all strings over a 28-symbol lexer alphabet up to length 3 (quick) / 4 (thorough) [exhaustive, Gen_Strings]; Gen_Overflow boundary-grid programs (28 shapes); all include graphs over three files incl. self loops, cycles, missing files [Gen_IncGraph, exhaustive in thorough], also with a reader that never reports cycles; Gen_Values/Gen_Flow simulations; every layout order of a 2..3 (thorough: 4) block cycle [Gen_Blocks, exhaustive]; token/line mutations and truncations of corpus programs; scaled programs for the sweep bound; rva in 10 output modes (the extreme Gen_Overflow pairs in --debug / --yaml / --json)",
     })
